@@ -469,6 +469,8 @@ def jobs(tier):
   add(template='chord', mode='minor', meter=[6, 8], divisions=4)
   add(template='rest', mode='dorian')
   add(template='two_voices', divisions=4)
+  # a backup that is not a whole number of quarter notes (3/8, 2 divisions)
+  add(template='two_voices', divisions=2, meter=[3, 8], qpm=90)
   add(template='two_measures', qpm=60, qpm2=120)
   add(template='two_parts', transpose=True)
   add(template='retranspose', transpose=True)
@@ -490,7 +492,7 @@ def jobs(tier):
       meter=[6, 4])
   if deep:
     for D in (1, 2, 4, 24):
-      for meter in ([4, 4], [3, 4], [6, 8], [2, 2]):
+      for meter in ([4, 4], [3, 4], [6, 8], [2, 2], [3, 8]):
         if (D * 4) % meter[1]:
           # the property quantifies over scores in which a beat is a whole
           # number of divisions (6/8 needs even divisions)
